@@ -237,6 +237,7 @@ def run(tier):
                   'arity k<=3 (thorough: xor/maj also k=4), thresholds K in -1..k+1',
                   'compression: bipartite graphs B(n,r), r<=%d (thinned for n*r>=6 as coded in points())' % (2 if tier == 'quick' else 3),
                   'quick tier visits one third of the (formula, transformation) grid']
+    run.bounds += ['size-threshold points of vlib/bigpoints.py (parameters around 10/11, 16/17, 32/33; satisfiable instances; equivalence only, 15 s solver budget, undecided ones counted as big_inconclusive)', 'one third of the points is built a second time, one third again after three calls with other arguments: all builds must agree']
     run.outside = ['k>4, larger input formulas', 'the AND substitution (not named by the property)']
     run.assumptions = ['block layout: original variable v owns new variables (v-1)k+1..vk (ite: v, n+v, 2n+v; lifting: X block then Y block)',
                        'z3 is sound']
